@@ -6,7 +6,7 @@ from .. import guards, rules, scans
 from ..config import contexts
 from ..model import AnalysisError, call_name, loc, unparse
 from ..paths import Walker
-from ..rules import family_views, witness, facts_text
+from ..rules import family_views, witness, facts_text, listop
 from . import c02, c03
 
 EXPLANATION = (
@@ -32,6 +32,7 @@ def check(ctx):
     jockey_default(ctx, P)
     from . import c01
     c01.no_touch_after_handover(ctx, P, views, iters)
+    renege_leaves_class_change_cache(ctx, P, views, iters)
     ctx.assume("baulking functions return a probability in [0, 1]; distributions return non-negative patience")
 
 
@@ -155,6 +156,42 @@ def renege_scan(ctx, P):
         vals = sorted(vals)
         if vals not in (["random_choice(self.next_individual)", "self.next_individual[0]"], ["random_choice(self.next_individual)", "self.next_individual[-1]"]):
             ctx.violation(ob, "R6.argmin", "%s.decide_between_simultaneous_individuals" % cls.name, str(vals), "subject-not-selected", "must pick one of self.next_individual", loc(fn))
+
+
+def renege_leaves_class_change_cache(ctx, P, views, iters):
+    """a reneging customer is a WAITING customer: it may be the one cached as the next to change class (next_class_change_ind).  If it leaves without the
+    cache being refreshed, the class-change event later fires for a customer that is no longer at the node (list.remove fails)."""
+    ob = ctx.ob("RCC", "renege: after the customer is taken off the node's lists, reset_class_change(it) / find_next_class_change() runs before the hand-over")
+    done = set()
+    for view in views:
+        if "PSNode" in view.mro:
+            continue
+        cls, fn = view.method("renege")
+
+        def keep(e):
+            if e.kind != "call":
+                return False
+            lo = listop(e)
+            if lo and lo[2] == "individuals" and lo[1] == "self" and lo[0] == "rem":
+                return True
+            return e.d["meth"] in ("reset_class_change", "find_next_class_change") or (e.d["meth"] == "accept" and not e.d.get("selfcall") and e.d.get("recv") != "self")
+        w = Walker(P, view, keep=keep, inline=rules.new_helper, loop_iters=iters)
+        n = 0
+        for st in w.paths_of(cls, fn):
+            if st.status == "raise":
+                continue
+            kinds = ["rem" if listop(e) else "acc" if e.d["meth"] == "accept" else "cc" for e in st.events]
+            n += 1
+            ok = "rem" in kinds and "cc" in kinds[kinds.index("rem"):] and ("acc" not in kinds or kinds.index("cc", kinds.index("rem")) < kinds.index("acc"))
+            ob.ok("%s.renege:%s" % (view.name, "".join(k[0] for k in kinds)), "%s.renege: %s" % (view.name, " -> ".join(x.text[:50] for x in st.events)))
+            if not ok and cls.name not in done:
+                done.add(cls.name)
+                ctx.violation(ob, "R7.fired-timer", "%s.renege" % cls.name, "next_class_change_ind", "class-change-cache-not-refreshed",
+                              "the reneging customer leaves the node but stays cached as the next customer to change class: its class-change event later runs "
+                              "change_priority_queue on a customer that is not in the node's lists (ValueError) or rewrites the class of a customer at another node",
+                              loc(fn), witness(st))
+        if not n:
+            ctx.unrecognised("RCC: no path through %s.renege" % view.name)
 
 
 def jockey_default(ctx, P):
